@@ -340,3 +340,68 @@ func shortHash(b []byte) uint64 {
 	}
 	return h
 }
+
+// ---------------------------------------------------------------------------------------------------------------------
+// Raw (archive-level) operations: tar semantics, no parent checks.
+
+func (f *FS) RawSet(p string, dir bool, data []byte, perm uint32) {
+	p = Clean(p)
+	f.gen++
+	n := &Node{Dir: dir, Perm: perm, UID: f.UID, GID: f.GID, ContentGen: f.gen}
+	if !dir {
+		n.Data = append([]byte(nil), data...)
+	}
+	f.N[p] = n
+}
+
+func (f *FS) RawUpdate(p string, replace bool, data []byte, perm uint32) bool {
+	p = Clean(p)
+	n, ok := f.N[p]
+	if !ok {
+		return false
+	}
+	n.Perm = perm
+	if replace && !n.Dir {
+		f.gen++
+		n.ContentGen = f.gen
+		n.Data = append([]byte(nil), data...)
+	}
+	return true
+}
+
+func (f *FS) RawDelete(p string) bool {
+	p = Clean(p)
+	n, ok := f.N[p]
+	if !ok {
+		return false
+	}
+	if n.Dir {
+		for _, c := range f.children(p) {
+			delete(f.N, c)
+		}
+	}
+	delete(f.N, p)
+	return true
+}
+
+func (f *FS) RawMove(o, n string) bool {
+	o, n = Clean(o), Clean(n)
+	src, ok := f.N[o]
+	if !ok {
+		return false
+	}
+	if o == n {
+		return true
+	}
+	kids := []string{}
+	if src.Dir {
+		kids = f.children(o)
+	}
+	f.N[n] = src
+	delete(f.N, o)
+	for _, c := range kids {
+		f.N[n+strings.TrimPrefix(c, o)] = f.N[c]
+		delete(f.N, c)
+	}
+	return true
+}
